@@ -140,6 +140,54 @@ mut("x25519_small_order_filter_removed", "src/key_exchange/group/curve25519.rs",
 """, "",
     breaks=["C11"], keeps=["C03"], note="re-introduces D3")
 
+mut("nist_sk_filter_removed", "src/key_exchange/group/elliptic_curve.rs",
+    """            .filter(|sk| Self::serialize_sk(*sk).as_slice() == bytes)
+""", """            .filter(|sk| Self::serialize_sk(*sk).as_slice().len() >= bytes.len())
+""",
+    breaks=["C10"], keeps=["C11", "C19", "C09", "C01"], note="re-introduces D5 (zero-padded short NIST scalars)")
+
+mut("nist_pk_filter_removed", "src/key_exchange/group/elliptic_curve.rs",
+    """            .filter(|pk| Self::serialize_pk(*pk).as_slice() == bytes)
+""", """            .filter(|pk| Self::serialize_pk(*pk).as_slice().len() == bytes.len())
+""",
+    breaks=["C10"], keeps=["C19", "C01"], note="re-introduces D2a (SEC1 compact tag 05 accepted for NIST key-exchange keys)")
+
+mut("nist_hash_to_scalar_zero_accepted", "src/key_exchange/group/elliptic_curve.rs",
+    """                if bool::from(scalar.is_zero()) {""", """                if bool::from(scalar.is_zero()) && false {""",
+    breaks=["C19", "C11"], keeps=["C10"], note="a zero hash-to-scalar output would be returned as a private key (probability 2^-256: no test or generator can reach it)")
+
+mut("nist_dh_uses_generator", "src/key_exchange/group/elliptic_curve.rs",
+    """        Self::serialize_pk(pk * sk)""", """        Self::serialize_pk(ProjectivePoint::<Self>::generator() * sk + (pk - pk))""",
+    breaks=[], keeps=[], note="(does not type-check in the shim: recorded only to see the degradation)")
+
+mut("serde_private_key_skips_group_decoder", "src/keypair.rs",
+    """        KG::serialize_sk(self.0).serialize(serializer)""", """        KG::serialize_sk(self.0).as_slice().serialize(serializer)""",
+    breaks=[], keeps=["C11"], note="serializes a slice instead of a fixed array (different serde framing); needs the serde shim to know slices - degradation only")
+
+mut("argon2_salt_nonzero", "src/ksf.rs",
+    """&[0; argon2::RECOMMENDED_SALT_LEN]""", """&[1; argon2::RECOMMENDED_SALT_LEN]""",
+    breaks=["C09"], keeps=["C01", "C03"], note="Argon2 adapter salts with 01..01 instead of zeros: consistent on both sides, only RFC conformance is lost")
+
+mut("input_iter_payload_first", "src/serialization/mod.rs",
+    """        [self.octet.as_slice()]
+            .into_iter()
+            .chain(match &self.input {
+                InnerInput::Owned(bytes) => [bytes.as_slice()],
+                InnerInput::Borrowed(bytes) => [*bytes],
+                InnerInput::Label((iter, _)) => [iter[0]],
+            })""", """        (match &self.input {
+                InnerInput::Owned(bytes) => [bytes.as_slice()],
+                InnerInput::Borrowed(bytes) => [*bytes],
+                InnerInput::Label((iter, _)) => [iter[0]],
+            })
+            .into_iter()
+            .chain([self.octet.as_slice()])""",
+    breaks=["C05", "C09"], keeps=["C03"], note="length prefix AFTER the payload: framing no longer injective (both sides agree, tests pass)")
+
+mut("input_iter_dead_label_arm", "src/serialization/mod.rs",
+    """                InnerInput::Label((iter, _)) => [iter[0]],""", """                InnerInput::Label((iter, _)) => [iter[1]],""",
+    breaks=[], keeps=["C01", "C03"], note="changes a branch no call site reaches (iter() on a label): must not raise an alarm (undecided is acceptable for C05/C09)")
+
 mut("harmless_rename_and_reorder", "src/key_exchange/tripledh.rs",
     """        let server_e_kp = KeyPair::<KG>::generate_random::<OprfCs, _>(rng);
         let server_nonce = generate_nonce::<R>(rng);
@@ -156,7 +204,29 @@ def run_check(pid):
     return p.returncode, last[0]
 
 
+def emit(outdir):
+    """write every mutant as <outdir>/<name>/{patch.diff,meta.json} (for bin/matrix.py, which runs them in isolation)"""
+    assert subprocess.run(["git", "-C", REPO, "status", "--porcelain"], capture_output=True, text=True).stdout.strip() == "", "/repo not clean"
+    for m in M:
+        path = os.path.join(REPO, m["file"])
+        src = open(path).read()
+        if m["old"] not in src:
+            print("SKIP (anchor not found):", m["name"]); continue
+        try:
+            open(path, "w").write(src.replace(m["old"], m["new"], 1))
+            diff = subprocess.run(["git", "-C", REPO, "diff"], capture_output=True, text=True).stdout
+        finally:
+            subprocess.run(["git", "-C", REPO, "checkout", "--", "."])
+        d = os.path.join(outdir, "own-" + m["name"])
+        os.makedirs(d, exist_ok=True)
+        open(os.path.join(d, "patch.diff"), "w").write(diff)
+        json.dump({"property": (m["breaks"] or ["none"])[0], "expected_violations": m["breaks"], "expected_ok": m["keeps"], "summary": m["note"]}, open(os.path.join(d, "meta.json"), "w"), indent=1)
+    print("emitted", len(M), "mutants to", outdir)
+
+
 def main():
+    if len(sys.argv) >= 3 and sys.argv[1] == "--emit":
+        return emit(sys.argv[2])
     sel = sys.argv[1:]
     out = []
     assert subprocess.run(["git", "-C", REPO, "status", "--porcelain"], capture_output=True, text=True).stdout.strip() == "", "/repo not clean"
